@@ -104,7 +104,8 @@ Record tables := mk_tables {
   t_rdomain_fixed : bool;            (* which of the two known bodies config_default_rdomain has *)
   t_execdir_default : bytes;
   t_depth_limit : nat;
-  t_interp_path : bool               (* whether the interpolations done while parsing pass the configuration path to interpolate.c (findings/D16_interp_diag_path.diff) *) }.
+  t_interp_path : bool;              (* whether the interpolations done while parsing pass the configuration path to interpolate.c (findings/D16_interp_diag_path.diff) *)
+  t_builddir_guard : bool            (* whether config_default_build_dir refuses to be re-entered (findings/D18_builddir_reentry.diff) *) }.
 
 (* struct variable_value; DIRECTORY-typed defaults render like strings and are
    represented by VStr *)
